@@ -9,4 +9,4 @@ Extraction "model.ml"
   N.add N.mul N.div_eucl
   init step run observe script_step script_run ist0
   point_valid e2e_run apply_wop
-  mon_run mon0 obs0 c02_holds.
+  mon_run mon0 obs0 c02_holds e2e_holds.
